@@ -34,12 +34,19 @@ ERR_TYPES = {
     "C08Error": C08Error, "ZeroDivisionError": ZeroDivisionError,
     "AssertionError": AssertionError, "EOFError": EOFError, "BrokenPipeError": BrokenPipeError,
     "StopIteration": StopIteration, "OSError": OSError, "FileNotFoundError": FileNotFoundError, "LookupError": LookupError,
-    "C08SubError": None,
+    "C08SubError": None, "AttributeError": AttributeError, "AttributeErrorFrom": AttributeError, "IndexError": IndexError,
+    "NotImplementedError": NotImplementedError, "UnicodeError": UnicodeError,
 }
 
 
-def err_message(item):
-    return "c08-err-%d" % item
+def err_message(item, err=None):
+    # the "... from ..." wording is what pickle's attribute-lookup error looks like; a user's AttributeError may well look alike
+    return ("c08-err-%d from c08" % item) if err == "AttributeErrorFrom" else ("c08-err-%d" % item)
+
+
+def item_key(item):
+    """items are ints, or a re-used one-element buffer [id] (streams that re-yield one mutable object)"""
+    return item[0] if isinstance(item, list) else item
 
 
 ERR_TYPES["C08SubError"] = C08SubError
@@ -58,6 +65,7 @@ class SpecFilter:
                 f.write("%d\n" % item)
 
     def filter(self, item):
+        item = int(item_key(item))
         self._record(item)
         outs, err, gen = self.table[item][:3]
         if len(self.table[item]) > 3 and self.table[item][3]:
@@ -66,14 +74,14 @@ class SpecFilter:
         if gen:
             return self._gen(item, outs, err)
         if err:
-            raise ERR_TYPES[err](err_message(item))
+            raise ERR_TYPES[err](err_message(item, err))
         return outs[0]
 
     def _gen(self, item, outs, err):
         for o in outs:
             yield o
         if err:
-            raise ERR_TYPES[err](err_message(item))
+            raise ERR_TYPES[err](err_message(item, err))
 
 
 def table_of(items, force_gen=False, base=0):
